@@ -18,6 +18,7 @@ import Driver.ChainObj
 import Driver.DecoratorDirect
 import Driver.ExitStackEnter
 import Driver.CloseBusy
+import Driver.AwaitifyReuse
 import Driver.Tools
 open Lean
 
@@ -36,6 +37,7 @@ def dispatch (j : Json) : Except String Json := do
   | "decoratordirect" => Drv.DecoratorDirect.run j
   | "exitstackenter" => Drv.ExitStackEnter.run j
   | "closebusy" => Drv.CloseBusy.run j
+  | "awaitifyreuse" => Drv.AwaitifyReuse.run j
   | "tool" => Drv.Tools.run j
   | "contextmanager" => Drv.ContextManager.run j
   | "adapters" => Drv.Adapters.run j
